@@ -296,6 +296,14 @@ Proof.
     + apply wret_inv in E as ([= ->] & _). exact Hr.
 Qed.
 
+Lemma irpq_parent_of n : GoodN n -> irpq (OutO P) (parent_of n).
+Proof.
+  intros (_ & Hp & _). unfold parent_of. destruct (n_parent n) as [|k|p] eqn:E.
+  - apply irpq_fail.
+  - apply irpq_ret. intros c [=].
+  - apply irpq_ret. intros c [= <-]. apply Hp. reflexivity.
+Qed.
+
 Lemma irpq_first_named name l : OutC l -> irpq (OutO P) (first_named name l).
 Proof.
   intros Ho. apply irpq_ro_post; [apply ro_first_named|]. revert Ho.
